@@ -578,8 +578,15 @@ def stack(arrays, /, *, axis=0):
     if not arrays:
         raise ValueError("Need array(s) to stack")
 
-    # TODO: check arrays all have same shape
-    # TODO: unify chunks
+    if len({a.shape for a in arrays}) > 1:
+        raise ValueError(
+            f"all input arrays must have the same shape: {[a.shape for a in arrays]}"
+        )
+
+    # unify chunks so that corresponding blocks of all arrays line up
+    inds = [list(range(a.ndim)) for a in arrays]
+    uc_args = chain.from_iterable(zip(arrays, inds))
+    _, arrays = unify_chunks(*uc_args, warn=False)
 
     a = arrays[0]
 
